@@ -81,9 +81,14 @@ pub mod c15 {
         if m < 0.0 { m += 4294967296.0; }
         m as u32
     }
+    // R1b control: a shift folded in 64 bits on a value cast from f64
+    pub mod fold {
+        pub fn shl(left: f64, count: f64) -> f64 { ((left as i64) << (count as u32 & 0x1f)) as f64 }
+    }
     // R4-R6 controls: printers that print a computed mantissa, a second default printer, precision formatting
     pub mod print {
         pub fn number_to_string(n: f64) -> String {
+            if n == 0.5 { return saturating_int(n) + &guarded_int(n); }
             if n.abs() >= 1e21 { format_exponential(n) } else { format!("{}", n) }
         }
         fn format_exponential(n: f64) -> String {
@@ -96,6 +101,14 @@ pub mod c15 {
         }
         pub fn to_fixed(n: f64, digits: usize) -> String {
             format!("{:.prec$}", n, prec = digits)
+        }
+        /// BAD (R4b): saturates from 2^63 although the branch admits everything below 1e21
+        pub fn saturating_int(n: f64) -> String {
+            if n.abs() < 1e21 { (n as i64).to_string() } else { String::new() }
+        }
+        /// GOOD (R4b): the comparison keeps the value inside i64
+        pub fn guarded_int(n: f64) -> String {
+            if n.abs() < 9.0e15 { (n as i64).to_string() } else { String::new() }
         }
     }
 }
@@ -704,7 +717,19 @@ pub mod c04 {
                 }
             }
         }
+        // E7: folds a shift in 64 bits
+        fn static_value(e: &Expression) -> Option<f64> {
+            match e {
+                Expression::Literal(LiteralValue::Number(n)) => Some(*n),
+                Expression::Binary(l, r) => match (Self::static_value(l), Self::static_value(r)) {
+                    (Some(a), Some(b)) => Some(((a as i64) << (b as u32 & 0x1f)) as f64),
+                    _ => None,
+                },
+                _ => None,
+            }
+        }
         pub fn compile_enum_declaration(&mut self, decl: &EnumDeclaration) {
+            if let Some(m) = decl.members.first() { if let Some(i) = &m.initializer { let _ = Self::static_value(i); } }
             // E5: no lookup of an existing binding
             self.emit(Op::CreateObject { dst: 0 });
             let mut current_value: i64 = 0;
@@ -820,4 +845,39 @@ pub mod idx {
     pub fn guarded(v: &[u32], i: usize) -> u32 { if i < v.len() { v[i] } else { 0 } }
     /// GOOD: not empty, index 0
     pub fn guarded_first(v: &Vec<u32>) -> u32 { if v.is_empty() { return 0; } v[0] }
+}
+
+// C16 R4 controls: a member left out because of what it converts to
+pub mod c16omit {
+    use super::value::JsValue;
+    #[derive(PartialEq)]
+    pub enum Json { Null, Number(f64) }
+    pub struct Map(pub Vec<(String, Json)>);
+    impl Map { pub fn insert(&mut self, k: String, v: Json) { self.0.push((k, v)); } }
+    fn convert(v: &JsValue) -> Json {
+        match v { JsValue::Number(n) if n.is_finite() => Json::Number(*n), _ => Json::Null }
+    }
+    /// BAD: decided by the converted value
+    pub fn bad_export(members: &[(String, JsValue)]) -> Map {
+        let mut map = Map(Vec::new());
+        for (k, val) in members {
+            let json_val = convert(val);
+            if json_val == Json::Null && !matches!(val, JsValue::Object(_)) {
+                continue;
+            }
+            map.insert(k.clone(), json_val);
+        }
+        map
+    }
+    /// GOOD: only undefined members are left out
+    pub fn good_export(members: &[(String, JsValue)]) -> Map {
+        let mut map = Map(Vec::new());
+        for (k, val) in members {
+            let json_val = convert(val);
+            if json_val != Json::Null || !matches!(val, JsValue::Undefined) {
+                map.insert(k.clone(), json_val);
+            }
+        }
+        map
+    }
 }
